@@ -678,6 +678,11 @@ def eqIdx (a b : IIndex) : Bool :=
     let o := (dget b.entries e.1).getD []
     e.2.all (fun r => o.contains r) && o.all (fun r => e.2.contains r))
 
+/-- `f(*args)` for a function of one optional argument: the first of `args`, if any -/
+def starArg : List Int → Option Int
+  | [] => none
+  | c :: _ => some c
+
 /-- `get(key, default=None, force)` for 1-D/2-D indexes -/
 def getKey (i : IIndex) (k : Key) (force : Bool) : Option Rows :=
   if force && val0 k == i.common then
